@@ -125,6 +125,12 @@ def memory_groups():
     g('get.empty', ['C05'], 'h_get', 'cstl_shared_ptr_get_const', 'get of an empty pointer is NULL', defines=['-DVF_SP_EMPTY'])
     g('sp_alloc', ['C05', 'C16'], 'h_sp_alloc', 'cstl_shared_ptr_alloc', 'shared alloc into an empty pointer: sole owner of fresh memory, or empty and nothing leaked under every allocation-failure subset',
       defines=['-DVF_SP_ALLOC'])
+    for nm, h, fn, txt in (('sp_swap', 'h_sp_swap', 'cstl_shared_ptr_swap', 'shared swap: the two objects exchange their allocations (any pointers, also empty or the same allocation); no counter moves, nothing destroyed (the frame is the two objects)'),
+                           ('wp_swap', 'h_wp_swap', 'cstl_weak_ptr_swap', 'weak swap: as shared swap'),
+                           ('up_swap', 'h_up_swap', 'cstl_unique_ptr_swap', 'unique swap: memory, clear function and private pointer are exchanged together'),
+                           ('swap_self', 'h_swap_self', 'vf_swap_self', 'swapping a shared pointer with itself changes nothing'),
+                           ('up_release', 'h_up_release', 'cstl_unique_ptr_release', 'unique release: memory, clear function and private pointer are handed to the caller, nothing cleared or freed, object as freshly initialised')):
+        g(nm, ['C05'], h, fn, txt, defines=['-DVF_G_swap'])
     import json, os
     from .run import VERIF
     fn_of = {'gp_get': 'cstl_guarded_ptr_get_const', 'gp_copy_src': 'cstl_guarded_ptr_copy', 'gp_swap_a': 'cstl_guarded_ptr_swap',
